@@ -4,6 +4,7 @@ package drv
 
 import (
 	"fmt"
+	"reflect"
 	"runtime"
 	"strings"
 	"unsafe"
@@ -35,6 +36,10 @@ func (w *ifaceWorld) ptr(v string) (interface{}, unsafe.Pointer) {
 		return &ifc.J1, unsafe.Pointer(&ifc.J1)
 	case "k1":
 		return &ifc.K1, unsafe.Pointer(&ifc.K1)
+	case "l1":
+		return ifc.L1.Ptr, reflect.ValueOf(ifc.L1.Ptr).UnsafePointer()
+	case "l2":
+		return ifc.L2.Ptr, reflect.ValueOf(ifc.L2.Ptr).UnsafePointer()
 	}
 	panic("var " + v)
 }
@@ -45,7 +50,7 @@ func (w *ifaceWorld) Begin() {
 	w.init = map[string][2]uintptr{}
 	w.hi = map[string]*mocker.CachedInterfaceMocker{}
 	w.hm = map[string]mocker.InterfaceMocker{}
-	for _, v := range []string{"i1", "i2", "j1", "k1"} {
+	for _, v := range []string{"i1", "i2", "j1", "k1", "l1", "l2"} {
 		_, p := w.ptr(v)
 		w.init[v] = words(p)
 	}
@@ -137,6 +142,10 @@ func (w *ifaceWorld) call(v, m string, a int) int {
 		return ifc.CallI(ifc.I2, m, a)
 	case "j1":
 		return ifc.J1.Z(a)
+	case "l1":
+		return ifc.L1.Call(m, a)
+	case "l2":
+		return ifc.L2.Call(m, a)
 	default:
 		if m == "Z" {
 			return ifc.K1.Z(a)
